@@ -55,8 +55,9 @@ TRUSTED = [
     "exercised by the in-process tracer, which lets half of the bytes of a write through before the simulated death -- "
     "strace cannot tear a write); other system calls are atomic; a kill of the calling process is assumed to kill joblib's worker processes with it (orphaned loky workers "
     "that go on extracting after the parent died are a case of concurrent writers, outside the model)",
-    "path arithmetic (relative_path, with_suffix('.zip'), stripping of a '.zip' relative_path in image_folder.py) is "
-    "done by the harness, the model receives dst_path",
+    "path arithmetic (relative_path, zip_path_of = '<src_path>.zip', stripping of a '.zip' relative_path in image_folder.py) "
+    "is done by the harness (the archive is written to <global>/<relative_path>.zip, the model receives its members and "
+    "dst_path); that the code reads THAT archive is checked by the comparison of the destination with it (decoy archives)",
     "num_workers >= 2 (joblib/loky worker processes): the calling process's operations, the list of tasks handed to "
     "joblib.Parallel (recorded by wrapping Parallel.__call__, compared with Model.unzip_jobs), the final tree and the "
     "result are checked; the operations inside the worker processes are not traced -- the model runs them under the "
@@ -75,7 +76,11 @@ TRUSTED = [
     "theorems on the implementation's observations; Check.split3 cuts the model's plan into calling process / workers / "
     "end marker by operation counts",
     "measurement-only cases (feature keys `measure=...`: marker-named entries in the source, links that cannot be "
-    "followed, two concurrent copiers) are outside the domain: they are run and recorded, the oracle claims nothing",
+    "followed, two concurrent copiers) are outside the domain: they are run and "
+    "recorded, the oracle claims nothing",
+    "cross-format agreement: the plain / zip / zips sources of one logical tree are written by the harness (sources_of); the "
+    "oracle first checks that each describes exactly that tree (expected_content == flatten_tree(logical)) and then compares "
+    "the destination with it, so the three formats are compared with one another through the tree",
 ]
 ASSUMPTIONS = [
     "before the first call the destination either does not exist (and the sibling name <dst>.autocopy_tmp is unused) "
@@ -101,6 +106,13 @@ ASSUMPTIONS = [
     "the calling process alone -- measured once by hand (2 zips x 6000 files, 2 workers): the orphaned loky workers "
     "finish their current unzip task (401 -> 12001 files within 1 s after the parent's death) before they exit; a call "
     "started meanwhile works concurrently with them (same bytes are written, but see the concurrent-copiers item)",
+    "names: any string without '/' and NUL other than '.' and '..', at most 255 bytes, valid UTF-8 (zipfile cannot store other "
+    "names).  EXCLUDED: names ending in '.zip' inside a plain source / as member of an archive at top level are only generated in "
+    "the directed 'stray.zip' form (the source format is decided by that suffix: folder_contains_mostly_zips); case-insensitive "
+    "or normalising file systems (the sandbox is on the local Linux file system).  The single-zip form of a source is "
+    "<src_path>.zip - also when the last component of relative_path contains dots (fixes/C20_dotted_relative_path.patch; "
+    "generated: 'ds.v2', 'a.b/ds.v1.5', 'v.1/my ds..x', with and without an unrelated archive under the name with_suffix('.zip') "
+    "would have produced)",
     "symbolic links in a plain source are followed (shutil.copytree default): the copy holds the content the link "
     "points to; links that cannot be followed (dangling, loops) make every call raise shutil.Error (measured: "
     "`measure=dangling_symlink`, `measure=symlink_loop`) -- the call never returns normally, nothing is claimed",
@@ -108,7 +120,14 @@ ASSUMPTIONS = [
     "of folder_contains_mostly_zips)",
 ]
 ALLOWED_AXIOMS = []
-RULE = ("sources: random trees (depth <= 3, empty files, empty directories, now and then a symbolic link to a sibling) as "
+RULE = ("names: 40% of the random trees and all cross-format trees draw file / directory names from a rich alphabet (harness "
+        "NAME_CLASSES + random strings: consecutive / leading / trailing dots, spaces / tab / newline, non-ASCII (UTF-8, NFD, RTL "
+        "mark), 255-byte names, siblings equal up to case, names containing 'autocopy', marker names below the top level, quotes / "
+        "backslash / shell metacharacters), nesting up to 6, empty directories; cross-format: one logical tree (2 directed + 6 random, "
+        "thorough 40) as plain folder, single zip and folder of zips for both functions, each judged against the SAME tree "
+        "(uninterrupted and with 1-2 killed calls before), relative_path also with spaces and dots (dotted last component with a "
+        "single-zip source: with / without a decoy archive named like the relative_path cut at its last dot); "
+        "sources: random trees (depth <= 3, empty files, empty directories, now and then a symbolic link to a sibling) as "
         "plain folder / single zip / folder of zips (+ README), for both functions, relative_path none / 'ds' / 'a/ds' "
         "(image: also 'ds.zip'), local root present or absent, destination fresh or a manual folder; histories: EVERY kill "
         "point k of the first call for directed and sampled configurations (this includes the kill between creating and "
@@ -334,18 +353,160 @@ class _FileProxy:
 FILES = ["a.txt", "b.bin", "c", "d.dat", "e.jpg", "f"]
 DIRS = ["sub", "x", "deep", "emptydir", "y"]
 
+# ---- names: a file / directory name is ANY string without "/" and NUL other than "." and ".." (at most 255 bytes) ----
+NAME_CLASSES = {
+    "consecutive-dots": ["take..2.wav", "a...b", "v1..v2", "x..", "..y", "1..2..3", "...", "...."],
+    "leading-dot": [".gitkeep", ".env", "..hidden", ".a.b", ". x"],
+    "trailing-dot": ["trailing..", "x.", "end. ", "name.txt."],
+    "space": [" lead", "trail ", "two  spaces.txt", "sp ace.bin", " ", "  "],
+    "unicode": ["\u00e9.txt", "\u65e5\u672c\u8a9e.dat", "na\u00efve file.txt", "emoji\U0001f600.bin", "\u00c4\u00d6\u00dc", "e\u0301.txt",
+                "\u202eright-to-left", "\u00a0nbsp"],
+    "long": ["L" * 255, "l" * 200 + ".bin", "\u00e9" * 127, "d" * 120],
+    "case": ["A.TXT", "a.TXT", "A.txt", "README", "readme", "ReadMe", "SUB", "Sub"],
+    "autocopy-like": ["autocopy_start.txt.bak", "autocopy_end.txt~", "my_autocopy_end.txt", "AUTOCOPY_END.TXT", "autocopy",
+                      "autocopy_end", ".autocopy_tmp", "x.autocopy_tmp", "autocopy_start.txt ", "autocopy_end.TXT",
+                      "autocopy_start", "1autocopy_end.txt"],
+    "special": ["a\\b.txt", 'q"uote.txt', "it's", "tab\tname", "new\nline", "semi;colon", "$HOME", "~", "-rf", "*", "?.txt", "a:b",
+                "%41", "x.ZIP", "zip", "a.zip.bak", "#hash", "&amp;", "(paren)", "[br]", "{c}", "a|b", "<lt>", "`bq`", "!bang", "=eq",
+                "@at", "^c", ",comma", "+plus"],
+}
+NAME_ALPHABET = (list("abcXYZ019") + [".", ".", ".", " ", " ", "_", "-", "\u00e9", "\u00df", "\u65e5", "\U0001f600", "~", "$", "'", '"',
+                                       "\\", "(", "]", "%", "#", "&", ";", ",", "+", "=", "@", "!", "^", "`", "{", "\t", "*", "?", ":"])
 
-def gen_tree(rng, depth, tag=""):
-    """[[name, {"f": bytes} | {"d": children}]] with distinct names"""
-    n = rng.choice([1, 2, 2, 3, 3, 4]) if depth > 0 else rng.choice([0, 1, 2])
-    names = rng.sample(FILES, min(n, len(FILES)))
+
+def name_ok(nm, top=False):
+    """a legal name that keeps the case inside the domain of the property: not a marker name directly inside the source, no
+    '.zip' suffix (the format of a source is decided by that suffix: folder_contains_mostly_zips)"""
+    if nm in ("", ".", "..") or "/" in nm or "\0" in nm or len(nm.encode()) > 255 or nm.endswith(".zip"):
+        return False
+    return not (top and nm in (SNAME, ENAME))
+
+
+def gen_name(rng, used, top=False):
+    """a name from the rich alphabet that is distinct (as a byte string - names differing only in case ARE distinct) from
+    the names in `used`"""
+    for _ in range(50):
+        r = rng.random()
+        if used and r < 0.12:
+            nm = rng.choice(sorted(used)).swapcase()                  # equal up to case
+        elif r < 0.6:
+            nm = rng.choice(NAME_CLASSES[rng.choice(sorted(NAME_CLASSES))])
+        elif r < 0.65 and not top:
+            nm = rng.choice([SNAME, ENAME])                            # marker names are ordinary names below the top level
+        else:
+            nm = "".join(rng.choice(NAME_ALPHABET) for _ in range(rng.choice([1, 2, 3, 5, 8, 12])))
+        if name_ok(nm, top) and nm not in used:
+            return nm
+    return "n%d" % len(used)
+
+
+def name_classes(nm):
     out = []
+    if ".." in nm:
+        out.append("consecutive-dots")
+    if nm.startswith("."):
+        out.append("leading-dot")
+    if nm.endswith("."):
+        out.append("trailing-dot")
+    if " " in nm or "\t" in nm or "\n" in nm:
+        out.append("whitespace")
+    if any(ord(ch) > 127 for ch in nm):
+        out.append("unicode")
+    if len(nm.encode()) >= 120:
+        out.append("long")
+    if "autocopy" in nm.lower():
+        out.append("autocopy-like")
+    if any(ch in nm for ch in "\\\"'$~*?:;&|<>`!#%"):
+        out.append("shell-special")
+    return out
+
+
+def gen_tree(rng, depth, tag="", rich=None, top=True, budget=700):
+    """[[name, {"f": bytes} | {"d": children}]] with distinct names; rich: names from the rich alphabet (gen_name) instead
+    of the fixed lists.  budget: bytes a path below this directory may still use (PATH_MAX)"""
+    rich = (rng.random() < 0.4) if rich is None else rich
+    n = rng.choice([1, 2, 2, 3, 3, 4]) if depth > 0 else rng.choice([0, 1, 2])
+    out = []
+    if rich:
+        used = set()
+
+        def fresh():
+            for _ in range(20):
+                nm = gen_name(rng, used, top)
+                if name_ok(nm + tag, top) and len((nm + tag).encode()) + 1 <= budget:
+                    used.add(nm)
+                    return nm + tag
+            nm = "n%d" % len(used)
+            used.add(nm)
+            return nm + tag
+        names = [fresh() for _ in range(n)]
+        dnames = [fresh() for _ in range(rng.choice([0, 1, 1, 2]))] if depth > 0 else []
+    else:
+        names = [nm + tag for nm in rng.sample(FILES, min(n, len(FILES)))]
+        dnames = [dn + tag for dn in rng.sample(DIRS, rng.choice([0, 1, 1, 2]))] if depth > 0 else []
     for nm in names:
-        out.append([nm + tag, {"f": [rng.randrange(256) for _ in range(rng.choice([0, 0, 1, 2, 3, 6]))]}])
-    if depth > 0:
-        for dn in rng.sample(DIRS, rng.choice([0, 1, 1, 2])):
-            out.append([dn + tag, {"d": gen_tree(rng, depth - 1 if rng.random() < 0.7 else 0) if rng.random() < 0.8 else []}])
+        out.append([nm, {"f": [rng.randrange(256) for _ in range(rng.choice([0, 0, 1, 2, 3, 6]))]}])
+    for dn in dnames:
+        sub = (gen_tree(rng, depth - 1 if rng.random() < 0.7 else 0, rich=rich, top=False, budget=budget - len(dn.encode()) - 1)
+               if rng.random() < 0.8 else [])
+        out.append([dn, {"d": sub}])
     rng.shuffle(out)
+    return out
+
+
+def gen_logical_tree(rng, dirs_only_top):
+    """a rich tree for the cross-format cases: deep nesting (up to 6), empty directories, empty files; dirs_only_top: every
+    top-level entry is a non-empty directory (the form an image folder has: one directory per class)"""
+    if not dirs_only_top:
+        t = gen_tree(rng, rng.choice([1, 2, 3, 4]), rich=True)
+        if rng.random() < 0.4:                                       # a chain of nested directories
+            used = {nm for nm, _ in t}
+            node = [[gen_name(rng, set()), {"f": [7]}]]
+            for _ in range(rng.choice([3, 4, 5])):
+                node = [[gen_name(rng, set()), {"d": node}]]
+            if node[0][0] not in used and name_ok(node[0][0], True):
+                t.append(node[0])
+        return t or [[gen_name(rng, set(), True), {"f": [1]}]]
+    used, out = set(), []
+    for _ in range(rng.choice([1, 2, 3])):
+        dn = gen_name(rng, used, True)
+        while len(dn.encode()) > 240:                                # the archive of the class is named <dn>.zip
+            dn = gen_name(rng, used, True)
+        used.add(dn)
+        sub = gen_tree(rng, rng.choice([0, 1, 2]), rich=True, top=False, budget=700 - len(dn.encode()))
+        out.append([dn, {"d": sub or [[gen_name(rng, set()), {"f": []}]]}])
+    return out
+
+
+def flatten_tree(tree, pre=()):
+    out = {}
+    for nm, node in tree:
+        if "f" in node:
+            out[pre + (nm,)] = bytes(node["f"])
+        else:
+            out[pre + (nm,)] = None
+            out.update(flatten_tree(node["d"], pre + (nm,)))
+    return out
+
+
+def sources_of(rng, tree, variant, archive_names=None):
+    """the three source formats of ONE logical tree (None where the format cannot hold it: an image folder of zips is one
+    archive per top-level directory)"""
+    out = {"plain": {"tree": tree}, "zip": {"members": tree_members(tree, rng)}}
+    if variant == "folder":
+        k = rng.choice([1, 2, 3])
+        parts = [[] for _ in range(k)]
+        for ent in tree:
+            parts[rng.randrange(k)].append(ent)
+        names = archive_names or ["part %d..zip" % i if i % 2 else "p%d.zip" % i for i in range(k)]
+        items = [[names[i], {"zip": tree_members(parts[i], rng)}] for i in range(k)]
+        if rng.random() < 0.4:
+            items.append(["READ..ME", {"f": [82, 69]}])
+        out["zips"] = {"items": items}
+    elif all("d" in node and node["d"] for _, node in tree):
+        out["zips"] = {"items": [[nm + ".zip", {"zip": tree_members(node["d"], rng)}] for nm, node in tree]}
+    else:
+        out["zips"] = None
     return out
 
 
@@ -372,7 +533,8 @@ def gen_source(rng, fmt, variant):
         if rng.random() < 0.2:
             # a symbolic link to a sibling file or directory (copytree follows it)
             nm, node = rng.choice(t)
-            t.append(["link_" + nm, {"l": nm}])
+            if len(nm.encode()) < 240:
+                t.append(["link_" + nm, {"l": nm}])
             rng.shuffle(t)
         return {"tree": t}
     if fmt == "zip":
@@ -501,6 +663,8 @@ def build_sandbox(case):
     elif fmt == "zip":
         os.makedirs(os.path.dirname(sp), exist_ok=True)
         _write_zip(sp + ".zip", src["members"])
+        if case.get("decoy_zip"):                      # another archive next to the source (measurement cases)
+            _write_zip(os.path.join(os.path.dirname(sp), case["decoy_zip"]), [[["decoy.txt"], [1, 2, 3]]])
     else:
         os.makedirs(sp, exist_ok=True)
         for nm, it in src["items"]:
@@ -975,6 +1139,9 @@ def oracle_core(case, obs):
     # (entries of the source named like the markers only occur in measurement cases -- they are excluded from the domain;
     # there the two names are not compared)
     exp = {p: v for p, v in expected_content(case).items() if p not in ((SNAME,), (ENAME,))}
+    if "logical" in case and exp != flatten_tree(case["logical"]):
+        # the three source formats of one logical tree are all judged against that tree: they must agree with one another
+        return "harness: the source of this format does not describe the logical tree it was generated from"
     s0 = _as_dict(obs["s0"])
     manual = dst in s0 and dst + (SNAME,) not in s0
     if not obs.get("global_unchanged", True):
@@ -1015,6 +1182,10 @@ def oracle_core(case, obs):
                     extra = sorted(set(content) - set(exp))
                     diff = sorted(p for p in set(exp) & set(content) if exp[p] != content[p])
                     jobs = [j[1] for pl in (att.get("pools") or []) for j in pl["jobs"]]
+                    if case.get("decoy_zip") and any(p[-1] == "decoy.txt" for p in extra):
+                        return (f"{tag}: returned {r} but the local folder is not a copy of the source the relative_path names "
+                                f"({_rel_arg(case)!r} -> {case['rel']}.zip): it holds the content of the unrelated archive "
+                                f"{case['decoy_zip']} next to it: extra {extra[:4]} missing {missing[:4]}")
                     return (f"{tag}: returned {r} but the destination is not a complete copy of the source: "
                             f"missing {missing[:4]} extra {extra[:4]} different {diff[:4]}"
                             + (f"; num_workers={case.get('workers', 0)}, tasks handed to joblib: {jobs}" if jobs else ""))
@@ -1043,8 +1214,7 @@ def oracle_core(case, obs):
 # Coq rendering
 # ---------------------------------------------------------------------------
 def S(s):
-    assert '"' not in s
-    return Raw('"' + s + '"%string')
+    return Raw('"' + s.replace('"', '""') + '"%string')
 
 
 def P(comps):
@@ -1169,11 +1339,73 @@ def directed_bases():
     return out
 
 
+DOTS_TREE = [
+    ["take..2.wav", {"f": [1, 2, 3]}], ["..hidden", {"f": [4]}], ["trailing..", {"f": [5, 6]}], [".gitkeep", {"f": []}],
+    ["A.txt", {"f": [65]}], ["a.txt", {"f": [97]}], ["autocopy_end.txt.bak", {"f": [9]}], ["my_autocopy_start.txt", {"f": []}],
+    ["v1..v2", {"d": [["x.txt", {"f": [7]}], ["...", {"d": [[" ", {"f": [8]}], ["empty..dir", {"d": []}]]}]]}],
+    ["sub", {"d": [[SNAME, {"f": [1]}], [ENAME, {"f": [2]}], ["SUB", {"d": []}]]}],
+    ["\u00e9 \u65e5\u672c.dat", {"f": [200, 201]}], ["L" * 255, {"f": [76]}], ['q"uo\\te\t.txt', {"f": [34]}],
+    ["deep", {"d": [["er", {"d": [["and..", {"d": [["deeper", {"d": [["bottom.", {"f": [0]}]]}]]}]]}]]}],
+]
+DOTS_CLASSES = [
+    ["cls..1", {"d": [["img..0.jpg", {"f": [1]}], ["..x", {"f": [2, 2]}]]}],
+    ["cls 2.", {"d": [["sub..dir", {"d": [["a.", {"f": [3]}]]}], [ENAME, {"f": [4]}]]}],
+    [".cls3", {"d": [["\u00e9..png", {"f": []}]]}],
+    ["CLS..1", {"d": [["img..0.jpg", {"f": [5]}]]}],
+]
+
+
+def logical_bases(rng, tree, tag):
+    """one logical tree in every source format, for both functions"""
+    out = []
+    for variant in ("folder", "image"):
+        srcs = sources_of(rng, tree, variant)
+        for fmt in ("plain", "zip", "zips"):
+            if srcs[fmt] is None:
+                continue
+            rel = rng.choice([None, "ds", "a/ds", "my data/v1..5/d s", "ds.v2", "v.1/my ds..x"])
+            extra = {}
+            if fmt == "zip" and rel is not None and "." in rel.split("/")[-1] and rng.random() < 0.5:
+                extra["decoy_zip"] = rel.split("/")[-1].rsplit(".", 1)[0] + ".zip"     # what with_suffix(".zip") would name
+            out.append(base_case(variant, fmt, rel, srcs[fmt], local_exists=rng.random() < 0.5, logical=tree, ltag=tag, **extra))
+    return out
+
+
+def dotted_rel_bases():
+    """relative_path whose last component contains a dot (fixes/C20_dotted_relative_path: with_suffix(".zip") replaced the
+    part after the last dot): the single-zip source is <relative_path>.zip - also when an unrelated archive named like the
+    relative_path cut at its last dot sits next to it"""
+    out = []
+    src = {"members": [[["a.txt"], [65]], [["sub", "b.txt"], [66]]]}
+    for variant in ("folder", "image"):
+        out.append(base_case(variant, "zip", "ds.v2", src, probe="dotted_relative_path"))
+        out.append(base_case(variant, "zip", "ds.v2", src, decoy_zip="ds.zip", probe="dotted_relative_path_with_decoy"))
+        out.append(base_case(variant, "zip", "a.b/ds.v1.5", src, decoy_zip="ds.v1.zip", local_exists=False,
+                             probe="dotted_relative_path_with_decoy"))
+        out.append(base_case(variant, "plain", "ds.v2", D25_SRC, probe="dotted_relative_path"))
+        out.append(base_case(variant, "zips", "ds.v2", {"items": [["n0.zip", {"zip": [[["c0", "a.txt"], [65]]]}]]},
+                             probe="dotted_relative_path"))
+    out.append(base_case("image", "zip", "ds.v2", src, decoy_zip="ds.zip", rel_zip_suffix=True,
+                         probe="dotted_relative_path_with_decoy"))
+    return out
+
+
+def rich_bases(rng, n):
+    """n random logical trees with names from the rich alphabet (+ the two directed ones), each as plain folder, single zip
+    and folder of zips for both functions"""
+    out = logical_bases(rng, DOTS_TREE, "dots") + logical_bases(rng, DOTS_CLASSES, "dots-classes")
+    for i in range(n):
+        out += logical_bases(rng, gen_logical_tree(rng, dirs_only_top=i % 2 == 1), "r%d" % i)
+    return out
+
+
 def random_base(rng):
     variant = rng.choice(["folder", "image"])
     fmt = rng.choice(["plain", "zip", "zips"])
-    rel = rng.choice([None, "ds", "ds", "a/ds"])
+    rel = rng.choice([None, "ds", "ds", "a/ds", "ds.v2"])
     c = base_case(variant, fmt, rel, gen_source(rng, fmt, variant), local_exists=rng.random() < 0.6)
+    if fmt == "zip" and rel == "ds.v2" and rng.random() < 0.5:
+        c["decoy_zip"] = "ds.zip"
     if variant == "image" and rel is not None and fmt == "zip" and rng.random() < 0.5:
         c["rel_zip_suffix"] = True
     if fmt == "plain" and rel is not None and rng.random() < 0.1:
@@ -1236,6 +1468,14 @@ def gen_cases(rng, tier):
         for man in ([], [[["mine.txt"], [1, 2]], [["sub"], None]], [[["a.txt"], [9]]]):
             b = base_case(variant, "plain", "data", D25_SRC, init="manual", manual=man)
             out += [with_kills(b, []), with_kills(b, [1]), with_kills(b, [3, 1])]
+    # one logical tree with names from the rich alphabet in all three formats: uninterrupted, killed once / twice
+    for b in dotted_rel_bases() + rich_bases(rng, 6 if tier == "quick" else 40):
+        out.append(with_kills(b, []))
+        n = count_ops(b)
+        if n and (tier == "thorough" or rng.random() < 0.5):
+            out.append(with_kills(b, [rng.randint(1, n)]))
+        if n and rng.random() < (0.5 if tier == "thorough" else 0.15):
+            out.append(with_kills(b, [rng.randint(1, n), rng.randint(1, n)]))
     out += torn_cases(rng, tier, bases)
     out += measure_cases(rng, tier)
     out += zips_workers_matrix(rng, tier)
@@ -1373,6 +1613,8 @@ def strace_cases(rng):
 
 
 def search_cases(rng, tier):
+    for b in dotted_rel_bases() + rich_bases(rng, 20):
+        yield with_kills(b, [])
     for b in directed_bases():
         n = count_ops(b)
         for k in range(1, n + 1):
@@ -1388,11 +1630,48 @@ def search_cases(rng, tier):
             yield with_kills(b, [rng.randint(1, n + 1) for _ in range(rng.choice([1, 2, 3]))])
 
 
+def _drop_members(ms):
+    """member lists with one member (and, for a directory, everything below it) removed"""
+    for i, (p, data) in enumerate(ms):
+        rest = [m for k, m in enumerate(ms) if k != i and not (data is None and m[0][:len(p)] == p)]
+        if rest:
+            yield rest
+
+
+def _shrink_tree(tree):
+    """trees with one entry removed / one directory replaced by its content's first half (any depth)"""
+    for i, (nm, node) in enumerate(tree):
+        if len(tree) > 1:
+            yield [x for k, x in enumerate(tree) if k != i and x[1].get("l") != nm]
+        if "d" in node:
+            for sub in _shrink_tree(node["d"]):
+                yield tree[:i] + [[nm, {"d": sub}]] + tree[i + 1:]
+            if node["d"]:
+                yield tree[:i] + [[nm, {"d": []}]] + tree[i + 1:]
+
+
 def shrink(case):
+    if "logical" in case:          # a shrunk source no longer is the logical tree: judge it on its own
+        case = {k: v for k, v in case.items() if k not in ("logical", "ltag")}
+        yield case
     ks = case["kills"]
     for i in range(len(ks)):
         yield dict(case, kills=ks[:i] + ks[i + 1:])
-    if case["fmt"] == "plain" and len(case["src"]["tree"]) > 1 and not case.get("strace"):
+    if case["fmt"] == "zip" and not case.get("strace"):
+        for rest in _drop_members(case["src"]["members"]):
+            yield dict(case, src={"members": rest})
+    if case["fmt"] == "zips" and not case.get("strace"):
+        items = case["src"]["items"]
+        for i, (nm, it) in enumerate(items):
+            if "zip" in it:
+                for rest in _drop_members(it["zip"]):
+                    yield dict(case, src={"items": items[:i] + [[nm, {"zip": rest}]] + items[i + 1:]})
+    if case["fmt"] == "plain" and not case.get("strace"):
+        for t in _shrink_tree(case["src"]["tree"]):
+            yield dict(case, src={"tree": t})
+    if case["rel"] not in (None, "ds") and not case.get("strace"):
+        yield {k: v for k, v in dict(case, rel="ds").items() if k not in ("decoy_zip", "probe")}
+    if case["fmt"] == "plain" and len(case["src"]["tree"]) > 1 and not case.get("strace") and False:
         for i in range(len(case["src"]["tree"])):
             t = case["src"]["tree"]
             gone = t[i][0]
@@ -1468,6 +1747,26 @@ def features(case, obs):
                              + ("(SIGKILL at the write system call)" if att["kill_at"] == "SIGKILL" else ""))
     if any("l" in node for _, node in (case["src"].get("tree") or [])):
         f.append("source_has_symlink")
+    try:
+        paths = list(expected_content(case))
+    except Exception:
+        paths = []
+    for cl in sorted({cl for p in paths for nm in p for cl in name_classes(nm)}):
+        f.append("names:" + cl)
+    if any(len(p) >= 5 for p in paths):
+        f.append("names:nesting>=5")
+    if any(nm in (SNAME, ENAME) for p in paths for nm in p[1:]):
+        f.append("names:marker-named entry below the top level")
+    lower = {}
+    for p in paths:
+        lower.setdefault((p[:-1], p[-1].lower()), set()).add(p[-1])
+    if any(len(v) > 1 for v in lower.values()):
+        f.append("names:siblings equal up to case")
+    if case["rel"] and "." in case["rel"].split("/")[-1]:
+        f.append("relative_path: dotted last component" + (f" [{case['fmt']}]")
+                 + (" + decoy archive" if case.get("decoy_zip") else ""))
+    if "logical" in case:
+        f.append(f"logical-tree[{case.get('ltag', '?')[:1]}]:{case['variant']}/{case['fmt']}")
     if case["fmt"] == "zips":
         f.append(f"zips={sum(1 for _, it in case['src']['items'] if 'zip' in it)},workers={case.get('workers', 0)}")
     return f
